@@ -1,10 +1,70 @@
 (* C19 — bounded QEF solutions stay in their cell and report their true error.
-   Statements only (filled from Render/QefSem.v). *)
-From Coq Require Import List Arith.
-From LF Require Import Render.Qef.
+   Statements only.  [bounded_search] is the descending-dimension search of
+   QEF<N>::solveBounded over the candidates returned by the (oracle) constrained
+   least-squares solve for each of the 3^N - 1 proper subspaces; the accumulation
+   and the error formula are the matrices of qef.hpp. *)
+From Coq Require Import Reals List Arith Permutation.
+From LF Require Import Render.Qef Render.QefSem.
 
-(* sanity of the subspace numbering (a finite test, superseded by QefSem.v):
-   26 = 222_3 is the whole cell, 0 = 000_3 a corner, 5 = 12_3 an edge of a square *)
-Theorem C19_dimension_examples : dimension 3 26 = 3 /\ dimension 3 0 = 0 /\ dimension 2 5 = 1.
-Proof. repeat split; reflexivity. Qed.
-Print Assumptions C19_dimension_examples.
+(* the position returned by the search lies in the box, whenever the corner
+   candidates have comparable (non-NaN) errors; bounds only need to be ordered *)
+Theorem C19_bounded_in_box :
+  forall (num : Type) (Q : qops (num:=num)) (lo hi : vec) (cands : nat -> cand) (n : nat),
+    1 <= n -> length lo = n -> length hi = n -> box_ok Q lo hi n ->
+    (forall j, j < 3 ^ n -> pinned_ok Q n lo hi j (c_pos (cands j))) ->
+    (forall j, j < 3 ^ n -> dimension n j = 0 -> q_ltb Q (c_err (cands j)) (q_inf Q) = true) ->
+    contains Q lo hi (c_pos (bounded_search Q n lo hi cands)) = true.
+Proof. exact @bounded_in_box. Qed.
+
+(* if moreover one face candidate has a comparable error, the result is one of the
+   candidates, with its constrained axes exactly on their faces *)
+Theorem C19_returns_pinned_candidate :
+  forall (num : Type) (Q : qops (num:=num)) (lo hi : vec) (cands : nat -> cand) (n : nat),
+    1 <= n -> length lo = n -> length hi = n -> box_ok Q lo hi n ->
+    (forall j, j < 3 ^ n -> pinned_ok Q n lo hi j (c_pos (cands j))) ->
+    (forall j, j < 3 ^ n -> dimension n j = 0 -> q_ltb Q (c_err (cands j)) (q_inf Q) = true) ->
+    forall j0, j0 < 3 ^ n -> dimension n j0 = n - 1 ->
+      q_ltb Q (c_err (cands j0)) (q_inf Q) = true ->
+      exists j, j < 3 ^ n /\ dimension n j <= n - 1 /\
+        bounded_search Q n lo hi cands = cands j /\
+        pinned_ok Q n lo hi j (c_pos (cands j)) /\
+        contains Q lo hi (c_pos (cands j)) = true.
+Proof. exact @search_returns_true_candidate. Qed.
+
+(* the comparability premise is necessary: with NaN errors everywhere (what zero
+   samples produced before the repair) the search returns its dummy, outside the box *)
+Theorem C19_nan_errors_refuted :
+  let r := bounded_search TQ 1 zs_lo zs_hi zs_cands in
+  1 <= 1 /\ length zs_lo = 1 /\ length zs_hi = 1 /\ box_ok TQ zs_lo zs_hi 1 /\
+  (forall j, j < 3 ^ 1 -> pinned_ok TQ 1 zs_lo zs_hi j (c_pos (zs_cands j))) /\
+  (forall j, c_err (zs_cands j) = TNaN) /\
+  r = dummy TQ 1 /\ c_pos r = (TFin 0 :: nil) /\ c_err r = TInf /\
+  contains TQ zs_lo zs_hi (c_pos r) = false.
+Proof. exact zero_sample_failure. Qed.
+
+(* the error is a sum of squared residuals, hence non-negative, for every sample
+   list (any number of samples, rank-deficient, parallel normals ...) *)
+Theorem C19_error_is_sum_of_squares :
+  forall (rinf : R) (n : nat) (ss : list sample) (pos : list R) (value : R),
+    Forall (sample_dim n) ss -> length pos = n ->
+    qerror (RQ rinf) (accum rinf ss (qef0 (RQ rinf) n)) pos value = SS rinf ss pos value.
+Proof. exact error_is_sum_of_squares. Qed.
+
+Theorem C19_error_nonneg :
+  forall (rinf : R) (n : nat) (ss : list sample) (pos : list R) (value : R),
+    Forall (sample_dim n) ss -> length pos = n ->
+    (0 <= qerror (RQ rinf) (accum rinf ss (qef0 (RQ rinf) n)) pos value)%R.
+Proof. exact error_nonneg. Qed.
+
+(* accumulating samples is order-independent: the three matrices are equal *)
+Theorem C19_insert_perm :
+  forall (rinf : R) (ss ss' : list sample),
+    Permutation ss ss' -> forall q, accum rinf ss q = accum rinf ss' q.
+Proof. exact insert_perm_eq. Qed.
+
+Print Assumptions C19_bounded_in_box.
+Print Assumptions C19_returns_pinned_candidate.
+Print Assumptions C19_nan_errors_refuted.
+Print Assumptions C19_error_is_sum_of_squares.
+Print Assumptions C19_error_nonneg.
+Print Assumptions C19_insert_perm.
